@@ -38,6 +38,8 @@ def check(run):
             for extra in (False, True):
                 kw = {"multiplication_truncator": max, "note": ["a", 1]} if extra else {}
                 L = abs(s) + rng.randint(0, 3)
+                if s == 0 and not extra:
+                    L = 0          # the smallest object there is: one weight, ell_max = 0 (a falsy but valid label)
                 m = helpers.make_modes(rng, s, L, lead, **kw)
                 objs.append(("Modes", m, {"class": "Modes", "s": s, "lead": list(lead), "extra": extra, "view": "contiguous"}))
                 if lead:
